@@ -86,8 +86,9 @@ pub fn run_external_colorpicker(picker: Option<&str>) -> Result<String> {
 
             // Check if tool requires some post processing of the output
             if let Some(post_process) = tool.post_process {
-                return post_process(color)
-                    .map_err(|error| PastelError::ColorParseError(error.to_string()));
+                // name the text that could not be understood, like every other parse error
+                return post_process(color.clone())
+                    .map_err(|_| PastelError::ColorParseError(color));
             } else {
                 return Ok(color);
             }
